@@ -659,6 +659,13 @@ func ruleC20(c *Ctx) {
 	}
 	c.check(nPrimary == 1 && nLoop == 1, "C20-ONCE", c.P.declName(all), "primary once, then each ordered file", all.Pos(),
 		"AllTransactions appends the primary journal once and then walks FileOrder once", fmt.Sprintf("AllTransactions does not have the shape 'primary once + one pass over FileOrder' (primary appends: %d, loops: %d)", nPrimary, nLoop))
+	ruleFileOrderGrowth(c)
+}
+
+// ruleFileOrderGrowth (C20-ONCE, second part): FileOrder is duplicate-free and positions are stable: every append
+// to a FileOrder field happens only when the path is not listed yet (a file that is updated keeps its place: the
+// order of the aggregated files does not depend on which file was edited last).
+func ruleFileOrderGrowth(c *Ctx) {
 	// FileOrder is duplicate-free: every append to a FileOrder field is de-duplicated
 	nApp := 0
 	for _, fd := range c.P.AllFuncDecls() {
